@@ -12,7 +12,7 @@ RULE = ('uploads (path / seekable at an offset / non-seekable / non-seekable wit
         'retries after partial body consumption (0..3 per request), http endpoints (the signer reads and rewinds the body while '
         'reporting is suppressed) and both checksum modes (aws-chunked wrapper), download stream faults at boundary byte positions '
         'with short reads, gated part orders; oracle: for a successful transfer the delivered bytes_transferred values sum to the '
-        'size and the running sum never leaves [0, size]; non-trivial = success with size>0 and at least one on_progress; distinct = '
+        'size and the running sum never leaves [0, size]; also: duck-typed progress-only subscribers, short-reading seekable sources below the threshold, sequential histories on one manager; non-trivial = success with size>0 and at least one on_progress; distinct = '
         '(shape, interleaving signature)')
 ASSUMPTIONS = ['negative deliveries are not demanded: the 256 KiB aggregator legitimately nets a rewind against the re-read',
                'legacy S3Transfer callbacks have a documented TODO for retries and are out of scope (the anchors are the manager)']
